@@ -26,6 +26,7 @@ def gen_pref(rnd, prio, allow_as_much):
         p['col'] = rnd.choice(['room', 'shelf', 'weight', 'weight'])
         p['phrase'] = rnd.choice(PHRASES)
         p['k'] = rnd.randint(1, 4)
+    p['only'] = None
     return p
 
 
@@ -45,10 +46,22 @@ def gen(rnd, big=False, as_much_share=0.12):
         prios = rnd.sample(range(0, 6), k)
     allow = rnd.random() < as_much_share
     prefs = [gen_pref(rnd, pr, allow) for pr in prios]
+    # ', where R is one of v1, v2': the preference speaks of those rooms only (forms that mention the room variable R)
+    for p in prefs:
+        if p['kind'] in ('agg_room', 'var', 'clause', 'cmp') and rnd.random() < 0.25:
+            pool = list(range(1, n + 2))
+            p['only'] = sorted(rnd.sample(pool, min(len(pool), rnd.choice([1, 2]))))
     return dict(rooms=n, shelves=shelves, card=card, prefs=prefs)
 
 
 def render_pref(p):
+    t = render_pref0(p)
+    if p.get('only'):
+        t = t[:-1] + ', where R is one of %s.' % ', '.join(str(v) for v in p['only'])
+    return t
+
+
+def render_pref0(p):
     pr = 'with %s priority' % p['prio'] if isinstance(p['prio'], str) else 'with priority %d' % p['prio']
     stmt = {'as_little': ' as little as possible', 'as_much': ' as much as possible'}.get(p['dir'], '')
     op = {'minimized': ' is minimized', 'maximized': ' is maximized'}.get(p['dir'], '')
@@ -99,7 +112,7 @@ def c_pref(p):
         f = '(PCmp %s %s %s)' % (COL[p['col']], coq_str(p['phrase']), coq_z(p['k']))
     d = {'minimized': 'DMinimized', 'maximized': 'DMaximized', 'as_little': 'DAsLittle', 'as_much': 'DAsMuch'}[p['dir']]
     pr = {'low': 'PLow', 'medium': 'PMedium', 'high': 'PHigh'}[p['prio']] if isinstance(p['prio'], str) else '(PNum %s)' % coq_z(p['prio'])
-    return '{| pf_form := %s; pf_dir := %s; pf_prio := %s |}' % (f, d, pr)
+    return '{| pf_form := %s; pf_dir := %s; pf_prio := %s; pf_only := %s |}' % (f, d, pr, coq_list([coq_z(v) for v in (p.get('only') or [])]))
 
 
 def coq_spec(spec):
